@@ -78,9 +78,28 @@ def _null_columns(ctx):
     ctx.require("R10.null", n, 1, "INSERTs into tables whose columns the sweep computes with")
 
 
+def _orphans(ctx):
+    """messages (which have no declared foreign key) are found by the sweep only
+    through their mailbox row: they must go in the transaction that deletes it"""
+    from . import c01
+    from ..report import Ctx
+    sub = Ctx(ctx.model, "C01", ctx.tier)
+    c01.run(sub)
+    ctx.rule("R10.orphan", "message rows are deleted in the transaction that deletes their "
+             "mailbox row (same rule instances as R01.codel): a crash between two "
+             "transactions would leave rows no sweep finds")
+    n = 0
+    for o in sub.obligations:
+        if o.rule == "R01.codel":
+            n += 1
+            ctx.ob("R10.orphan", o.construct, o.ok, o.site, o.detail)
+    ctx.require("R10.orphan", n, 1, "mailbox deletions")
+
+
 def run(ctx):
     model = ctx.model
     _null_columns(ctx)
+    _orphans(ctx)
     shared.r_durable(ctx, "R10.durable", ("chan", "usage"),
                      "an acknowledged command whose effect a crash loses is not re-sent by the client: the stored state diverges from the crash-free one")
     ctx.rule("R10.fk", "every transaction is FK-closed (E3 insert side and delete side)")
